@@ -127,13 +127,13 @@ Theorem C19_value_description_lookup : forall s d,
   unmarshal_value_description s d =
   value_description (s_value_descriptions s)
     (if s_signed s then unmarshal_signed s d else i64_of_u64 (unmarshal_unsigned s d)).
-Proof. exact unmarshal_value_description_spec. Qed.
+Proof. exact unmarshal_value_description_key. Qed.
 Print Assumptions C19_value_description_lookup.
 
 Theorem C19_description_suffix : forall s d,
   vd_suffix s d =
   match unmarshal_value_description s d with Some t => [Lit t_space; Lit t] | None => [] end.
-Proof. reflexivity. Qed.
+Proof. exact vd_suffix_def. Qed.
 Print Assumptions C19_description_suffix.
 
 (** defined (values pairwise distinct, DESIGN.md 4.3) => the text of that definition is returned *)
@@ -156,7 +156,7 @@ Theorem C19_json_unsigned : forall s d,
   let u := unmarshal_unsigned s d in
   json_signal_value uint_to_json s d =
   (dec_u u, to_physical s (f64_of_Z u), value_description (s_value_descriptions s) (i64_of_u64 u)).
-Proof. intros s d Hl Hs. rewrite (json_value_unsigned s d Hl Hs). unfold vd_key. rewrite Hs. reflexivity. Qed.
+Proof. exact json_value_unsigned_key. Qed.
 Print Assumptions C19_json_unsigned.
 
 Theorem C19_json_signed : forall uj s d,
@@ -164,7 +164,7 @@ Theorem C19_json_signed : forall uj s d,
   let v := unmarshal_signed s d in
   json_signal_value uj s d =
   (dec_s v, to_physical s (f64_of_Z v), value_description (s_value_descriptions s) v).
-Proof. intros uj s d Hl Hs. rewrite (json_value_signed uj s d Hl Hs). unfold vd_key. rewrite Hs. reflexivity. Qed.
+Proof. exact json_value_signed_key. Qed.
 Print Assumptions C19_json_signed.
 
 Theorem C19_json_bool : forall uj s d,
@@ -222,10 +222,7 @@ Theorem C19_json_valid : forall (rG rF : Z -> bytes) (rJ : bytes -> bytes) (rD :
   Forall (fun s => json_plain_name (s_name s)) (msg_signals m) ->
   json_render_with uint_to_json m d = Some segs ->
   json_value (render rG rF rJ rD segs).
-Proof.
-  intros rG rF rJ rD HF HJ m d segs Hn H.
-  exact (json_render_valid rG rF rJ rD HF HJ uint_to_json m d segs uint_to_json_number Hn H).
-Qed.
+Proof. exact json_render_valid_fixed. Qed.
 Print Assumptions C19_json_valid.
 
 (** * candebug: which messages a page shows *)
